@@ -7,6 +7,7 @@ structure Sess where
   call : Option (String × CallSt) := none   -- single-call API: (state name, call)
   hack : Bool := true
   full : Bool := false
+  skip : Bool := false      -- the rest of the case is outside the modelled class (not compared)
 
 def Sess.gone (s : Sess) : Sess := { s with flow := none, call := none }
 
@@ -107,9 +108,10 @@ def adoptFollow (fl : Flow) (pol : String) (m u : String) : Option Flow :=
     some { next with call := { next.call with req := { next.call.req with uriOverride := some u', unset := unset } } }
   | _, _ => none
 
-def stepLine (s : Sess) (l : String) : Sess × String :=
-  if l.startsWith "case " then ({ s with flow := none }, l)
+def stepLine0 (s : Sess) (l : String) : Sess × String :=
+  if l.startsWith "case " then ({ s with flow := none, call := none, skip := false }, l)
   else if l.startsWith "meta " then (s, l)
+  else if s.skip then (s, s!"{l} #out-of-class")
   else
     let opText := (l.splitOn " => ").head!
     let ws := opText.splitOn " "
@@ -208,3 +210,8 @@ def stepLine (s : Sess) (l : String) : Sess × String :=
            | some (nc, r) => ({ s with call := nc }, s!"{opText} => {r} @{match nc with | some (k, _) => k | none => "gone"}")
            | none => (s, s!"{opText} => str not-offered @{kind}"))
         | none => (s, s!"{opText} => str not-offered @{curState}")
+
+/-- once a redirect target falls outside the modelled URL class, the rest of that case is not compared -/
+def stepLine (s : Sess) (l : String) : Sess × String :=
+  let (s', o) := stepLine0 s l
+  if o.endsWith "#out-of-class" then ({ s' with skip := true }, o) else (s', o)
